@@ -146,6 +146,7 @@ func (fc *FuncCtx) havoc(st *St, ms *modSet, ghosts []string) {
 	}
 	st.pendingValid = nil
 	if ms.maps {
+		fc.materialiseStores(st, true, false)
 		for k := range st.mdom {
 			st.mdom[k] = fc.fresh("mdom", st.mdom[k].Sort)
 		}
@@ -153,7 +154,8 @@ func (fc *FuncCtx) havoc(st *St, ms *modSet, ghosts []string) {
 			st.mval[k] = fc.fresh("mval", st.mval[k].Sort)
 		}
 	}
-	if ms.bufs && st.bufh.S != "" {
+	if ms.bufs {
+		fc.bufHeap(st)
 		st.bufh = fc.fresh("bufh", st.bufh.Sort)
 	}
 	if ms.traces {
@@ -169,6 +171,7 @@ func (fc *FuncCtx) havoc(st *St, ms *modSet, ghosts []string) {
 		}
 	}
 	if ms.glob {
+		fc.materialiseGlobals(st)
 		for k := range st.glob {
 			st.glob[k] = fc.fresh("glob_"+k, st.glob[k].Sort)
 		}
